@@ -58,7 +58,9 @@ def validate_all(traces, owners, rep, feat, max_rejections=6):
         if ok:
             return
         bad = todo[idx]
-        rep.fail(dict(feat, kind="vm-trace", property=detail["property"], op=(detail["event"] or {}).get("op")),
+        ow = owners[bad] if isinstance(owners[bad], dict) else {}
+        rep.fail(dict(feat, kind="vm-trace", property=detail["property"], op=(detail["event"] or {}).get("op"),
+                      owner=ow.get("what") or ow.get("id") or "?"),
                  {"owner": owners[bad], "detail": detail})
         rej += 1
         todo = todo[idx + 1:]
